@@ -186,3 +186,56 @@ pub use crate::{lazy_joiner, transposing_joiner, value_joiner};
 pub fn block_on_tokio<F: core::future::Future>(f: F) -> F::Output {
     tokio::runtime::Builder::new_multi_thread().worker_threads(3).enable_all().build().unwrap().block_on(f)
 }
+
+// ------------------------------------------------------------------ native only: thread probes (C08) and watchdog (C18)
+#[cfg(not(kani))]
+pub mod probes {
+    use std::sync::atomic::{AtomicUsize, Ordering};
+    use std::sync::Mutex;
+    use std::thread::ThreadId;
+    use std::time::{Duration, Instant};
+    pub struct Probe { pub branch: u8, pub step: u8, pub name: Option<String>, pub id: ThreadId, pub all_arrived: bool }
+    static PROBES: Mutex<Vec<Probe>> = Mutex::new(Vec::new());
+    static ARRIVALS: [AtomicUsize; 16] = [const { AtomicUsize::new(0) }; 16];
+    pub fn probe_reset() { PROBES.lock().unwrap_or_else(|e| e.into_inner()).clear(); for a in ARRIVALS.iter() { a.store(0, Ordering::SeqCst); } }
+    /// called by the callback of (branch, step): records the thread it runs on, then waits (up to 30 s) until all
+    /// `expected` active branches of the step have arrived - they can only all arrive if they are alive at the same time
+    pub fn probe(branch: u8, step: u8, expected: usize) {
+        let t = std::thread::current();
+        ARRIVALS[step as usize].fetch_add(1, Ordering::SeqCst);
+        let deadline = Instant::now() + Duration::from_secs(30);
+        let mut ok = true;
+        while ARRIVALS[step as usize].load(Ordering::SeqCst) < expected {
+            if Instant::now() > deadline { ok = false; break; }
+            std::thread::sleep(Duration::from_millis(1));
+        }
+        PROBES.lock().unwrap_or_else(|e| e.into_inner()).push(Probe { branch, step, name: t.name().map(|s| s.to_string()), id: t.id(), all_arrived: ok });
+    }
+    /// expect: (branch, step, number of branches active in that step)
+    pub fn check_probes(caller_id: ThreadId, caller_name: Option<String>, expect: &[(u8, u8, usize)]) -> Result<(), String> {
+        let p = PROBES.lock().unwrap_or_else(|e| e.into_inner());
+        for &(b, s, n) in expect {
+            let hits: Vec<&Probe> = p.iter().filter(|x| x.branch == b && x.step == s).collect();
+            if hits.len() != 1 { return Err(format!("C08: callback of branch {} step {} ran {} times", b, s, hits.len())); }
+            let h = hits[0];
+            if !h.all_arrived { return Err(format!("C08: branch {} of step {} waited in vain for its {} siblings: the branches of a step are not alive at the same time", b, s, n - 1)); }
+            if n > 1 {
+                let want = match &caller_name { Some(c) => format!("{}_join_{}", c, b), None => format!("join_{}", b) };
+                if h.name.as_deref() != Some(want.as_str()) { return Err(format!("C08: branch {} of step {} ran on a thread named {:?}, expected {:?}", b, s, h.name, want)); }
+                if h.id == caller_id { return Err(format!("C08: branch {} of step {} ({} active branches) ran on the calling thread", b, s, n)); }
+                if p.iter().any(|o| o.step == s && o.branch != b && o.id == h.id) { return Err(format!("C08: two branches of step {} shared a thread", s)); }
+            } else if h.id != caller_id {
+                return Err(format!("C08: the single active branch {} of step {} did not run on the calling thread", b, s));
+            }
+        }
+        Ok(())
+    }
+    /// runs `f` on a helper thread and waits up to 60 s: None = the caller would have been left blocked
+    pub fn with_watchdog<T: Send + 'static>(f: impl FnOnce() -> T + Send + 'static) -> Option<T> {
+        let (tx, rx) = std::sync::mpsc::channel();
+        std::thread::Builder::new().name("main".into()).spawn(move || { let _ = tx.send(f()); }).unwrap();
+        rx.recv_timeout(Duration::from_secs(60)).ok()
+    }
+}
+#[cfg(not(kani))]
+pub use probes::*;
